@@ -398,6 +398,16 @@ impl RMsg {
     /// (or an empty property name): such a message may be refused, or carried some other
     /// correct way (AMF0 long strings), but never be converted into something that does not
     /// convert back
+    /// deepest AMF0 nesting in the message (a codec may have a nesting limit; beyond 32 levels a
+    /// refusal is accepted, an acceptance must still convert back)
+    pub fn amf_depth(&self) -> usize {
+        match self {
+            RMsg::Data(vs) => vs.iter().map(|v| v.depth()).max().unwrap_or(0),
+            RMsg::Command { obj, args, .. } => args.iter().map(|v| v.depth()).max().unwrap_or(0).max(obj.depth()),
+            _ => 0,
+        }
+    }
+
     pub fn amf_expressible(&self) -> bool {
         match self {
             RMsg::Data(vs) => vs.iter().all(amf::expressible),
